@@ -898,6 +898,9 @@ pub fn c13(a: &Args) -> CaseSet {
         std_tables()[0].clone(), std_tables()[3].clone(),
         vec![OpSpec::bin_un("+", 0, false), OpSpec::bin_un("-", 0, false), OpSpec::bin("*", 1, false), OpSpec::un("l"), OpSpec::un("lo"), OpSpec::un("log"), OpSpec::un("log2"), OpSpec::un("log10"),
              OpSpec::cst("PI"), OpSpec::cst("π"), OpSpec::cst("E"), OpSpec::un("exp"), OpSpec::un("sin"), OpSpec::bin("<", 0, false), OpSpec::bin("<=", 0, false), OpSpec::bin("<<", 2, false), OpSpec::un("α")],
+        // names of different kinds that are prefixes of each other: the longest name wins whatever its kind
+        vec![OpSpec::bin_un("+", 0, false), OpSpec::bin_un("-", 0, false), OpSpec::bin("*", 1, false), OpSpec::bin("log", 2, false), OpSpec::un("log2"), OpSpec::un("log10"), OpSpec::bin("min", 0, false), OpSpec::cst("minute"),
+             OpSpec::un("si"), OpSpec::bin("sin", 2, false), OpSpec::cst("sinus"), OpSpec::bin("|", 0, false), OpSpec::un("||"), OpSpec::cst("E")],
     ];
     let lit = |s: &str| Term::Lit(s.to_string());
     type Fam = (String, Option<(Term, Vec<String>)>, &'static str);
